@@ -93,7 +93,18 @@ func freshNameGenerator() *nameGen {
 
 func (gen *nameGen) freshPredicateName(sym ast.PredicateSym, arity int) ast.PredicateSym {
 	gen.n++
-	internalName := fmt.Sprintf("%s%d%s", sym.Symbol, gen.n, ast.InternalPredicateSuffix)
+	// The counter restarts in every stratum, so the name has to tell heads
+	// apart: without a separator the 11th rule for p and the 1st rule for p1
+	// would both get p11__tmp. A symbol that ends in a digit (or in the
+	// separator itself) is followed by an underscore; that makes the mapping
+	// from (symbol, counter) to names one-to-one.
+	sep := ""
+	if n := len(sym.Symbol); n > 0 {
+		if last := sym.Symbol[n-1]; last == '_' || ('0' <= last && last <= '9') {
+			sep = "_"
+		}
+	}
+	internalName := fmt.Sprintf("%s%s%d%s", sym.Symbol, sep, gen.n, ast.InternalPredicateSuffix)
 	return ast.PredicateSym{internalName, arity}
 }
 
